@@ -29,7 +29,8 @@ META = {
                   "gates": "symbolic 4x4 (non-unitary)", "truncation": "none (cutoff=0)"},
         "thorough": {"L": 4, "history length": "<= 3, all ordered pairs of operations from the vocabulary"},
     },
-    "outside": ["calc_current_orthog_center / count_canonized (numerical detector using allclose): a record is always supplied",
+    "outside": ["whether canonicalize() reaches the requested window with the fewest moves",
+                "calc_current_orthog_center / count_canonized (numerical detector using allclose): a record is always supplied",
                 "cyclic MPS", "truncating calls", "random sampling statistics (outcomes are fixed / enumerated)",
                 "complex entries in symbolic mode (np.real on object arrays); complex data only in numeric cross-runs where the kind is cplx"],
     "assumptions": ["LAPACK qr/svd return factors meeting their contracts (stubs); QR stub has positive diagonal",
@@ -70,7 +71,8 @@ def iso_goal(mk, label, t, over):
     mk.eq(label, g.reshape(n, n), ref.eye(n, like=g))
 
 
-def check_record(mk, psi, info, tag):
+def check_record(mk, psi, info, tag, marker=""):
+    """`marker` is appended to the labels of the record-range goals only (never to the flag goals)"""
     co = info.get("cur_orthog", None)
     if co is None or co == "calc":
         mk.note(f"{tag}: no record claimed")
@@ -83,10 +85,10 @@ def check_record(mk, psi, info, tag):
         t = psi[k]
         if k < cmin:
             over = tuple(i for i in t.inds if i != psi.bond(k, k + 1))
-            iso_goal(mk, f"{tag}: record {co} => site {k} left-isometric", t, over)
+            iso_goal(mk, f"{tag}: record {co} => site {k} left-isometric{marker}", t, over)
         elif k > cmax:
             over = tuple(i for i in t.inds if i != psi.bond(k - 1, k))
-            iso_goal(mk, f"{tag}: record {co} => site {k} right-isometric", t, over)
+            iso_goal(mk, f"{tag}: record {co} => site {k} right-isometric{marker}", t, over)
     for k in range(psi.L):
         t = psi[k]
         if t.left_inds is not None:
@@ -142,16 +144,17 @@ def apply_op(mk, psi, info, op, k):
         G = mk.array(f"G{k}", (d, d), "real")
         want = gate_ref(G, (i,), L, before)
         psi.gate_(G, i, contract=True, info=info)
-        # the generic one-site gate does not document a record update: the record is only
-        # still claimed if the gate hit the centre range
+        # gate() accepts the record; for a (non-unitary) gate outside the recorded range it leaves the
+        # record as it was, i.e. stale: reported under a marker (known finding), after which the history
+        # continues with the sound widened record
         co = info.get("cur_orthog")
         if co is not None:
             co = (co, co) if isinstance(co, int) else co
             if not (min(co) <= i <= max(co)):
-                info["cur_orthog"] = None
+                info["_stale"] = ("[one-site-gate-off-centre]", (min(*co, i), max(*co, i)))
         return psi, want
     if kind == "compress_site":
-        psi.compress_site(op[1], info=info, cutoff=0.0)
+        psi.compress_site(op[1], info=info, cutoff=0.0, **(op[2] if len(op) > 2 else {}))
         return psi, before
     if kind in ("svals", "schmidt"):
         i = op[1]
@@ -233,8 +236,15 @@ def run_history(mk, L, ops, start=None):
         tag = f"after op{k} {op}"
         if want is not None:
             mk.eq(f"{tag}: state as expected", dense(psi), want)
-        check_record(mk, psi, info, tag)
+        _check_after(mk, psi, info, tag)
     return psi, info
+
+
+def _check_after(mk, psi, info, tag):
+    marker, widened = info.pop("_stale", ("", None))
+    check_record(mk, psi, info, tag, marker)
+    if widened is not None:
+        info["cur_orthog"] = widened
 
 
 def _h(*ops, L=4, tiers=("quick", "thorough"), start=None, mand=True):
@@ -251,19 +261,21 @@ _T = ("thorough",)
 # operation re-establishes the invariant, which the `history` family checks)
 
 def canonical_mps(mk, L, c):
-    """MPS with free entries subject to: sites < c left-isometric, sites > c right-isometric.
+    """MPS with free entries subject to: sites < lo left-isometric, sites > hi right-isometric, where
+    (lo, hi) = c (an int c means (c, c)).
     Symbolic mode: the isometry relations are hypotheses on the leaf symbols.
     Numeric mode: a random MPS brought to that form by plain numpy QR sweeps (no quimb)."""
+    lo, hi = (c, c) if isinstance(c, int) else c
     shapes = [(D, d) if i in (0, L - 1) else (D, D, d) for i in range(L)]
     if mk.sym:
         arrays = [mk.array(f"A{i}", shapes[i], "real") for i in range(L)]
         for i in range(L):
             a = arrays[i]
-            if i == c:
+            if lo <= i <= hi:
                 continue
             for v in a.reshape(-1):
                 P.TAB.constrained.add(P.sid(v))
-            if i < c:      # left isometry: sum over (left bond, phys) -> identity on right bond
+            if i < lo:     # left isometry: sum over (left bond, phys) -> identity on right bond
                 m = a.T if a.ndim == 2 else np.transpose(a, (0, 2, 1)).reshape(-1, a.shape[1])
                 # 2D site 0 has axes (bond, phys): matrix (phys x bond)
             else:          # right isometry: sum over (right bond, phys) -> identity on left bond
@@ -273,62 +285,57 @@ def canonical_mps(mk, L, c):
                 for y in range(x, g.shape[1]):
                     P.HYP.append((f"canon-hyp site{i}[{x},{y}]", g[x, y] - (1 if x == y else 0)))
         return qtn.MatrixProductState(arrays)
-    arrays = [mk.array(f"A{i}", shapes[i], "real") for i in range(L)]
-    mats = []
-    # plain numpy sweep: left part
-    carry = None
-    for i in range(c):
-        a = arrays[i]
-        if a.ndim == 2:           # (bond_r, phys)
-            m = a.T               # (phys, bond_r)
-        else:                     # (bond_l, bond_r, phys)
-            if carry is not None:
-                a = np.tensordot(carry, a, (1, 0))
-            m = np.transpose(a, (0, 2, 1)).reshape(-1, a.shape[1])
-        if a.ndim == 2 and carry is not None:
-            raise AssertionError
-        q, r = np.linalg.qr(m)
-        if a.ndim == 2:
-            arrays[i] = q.T
-        else:
-            arrays[i] = np.transpose(q.reshape(a.shape[0], a.shape[2], -1), (0, 2, 1))
-        carry = r
-    if carry is not None:
-        a = arrays[c]
-        arrays[c] = np.tensordot(carry, a, (1, 0)) if a.ndim == 3 or c > 0 else a
-    carry = None
-    for i in range(L - 1, c, -1):
-        a = arrays[i]
-        if a.ndim == 2:           # last site: (bond_l, phys)
-            m = a.T               # (phys, bond_l)
-        else:
-            if carry is not None:
-                a = np.transpose(np.tensordot(a, carry, (1, 1)), (0, 2, 1))
-            m = np.transpose(a, (1, 2, 0)).reshape(-1, a.shape[0])
-        q, r = np.linalg.qr(m)
-        if a.ndim == 2:
-            arrays[i] = q.T
-        else:
-            arrays[i] = np.transpose(q.reshape(a.shape[1], a.shape[2], -1), (2, 0, 1))
-        carry = r
-    if carry is not None:
-        a = arrays[c]
-        if a.ndim == 2:          # first site (bond_r, phys), only when c == 0
-            arrays[c] = np.tensordot(carry, a, (1, 0))
-        else:
-            arrays[c] = np.transpose(np.tensordot(a, carry, (1, 1)), (0, 2, 1))
-    return qtn.MatrixProductState(arrays)
+    # numeric: work with (left, right, phys) arrays, dummy bonds of size 1 at the ends
+    arrs = []
+    for i in range(L):
+        a = np.asarray(mk.array(f"A{i}", shapes[i], "real"))
+        if i == 0:
+            a = a[None, :, :]                 # (1, r, p)
+        elif i == L - 1:
+            a = a[:, None, :]                 # (l, 1, p)
+        arrs.append(a)
+    for i in range(lo):                       # left sweep
+        a = arrs[i]
+        l, r, p = a.shape
+        q, rr = np.linalg.qr(np.transpose(a, (0, 2, 1)).reshape(l * p, r))
+        k = q.shape[1]
+        arrs[i] = np.transpose(q.reshape(l, p, k), (0, 2, 1))
+        arrs[i + 1] = np.tensordot(rr, arrs[i + 1], (1, 0))
+    for i in range(L - 1, hi, -1):            # right sweep
+        a = arrs[i]
+        l, r, p = a.shape
+        q, rr = np.linalg.qr(np.transpose(a, (1, 2, 0)).reshape(r * p, l))
+        k = q.shape[1]
+        arrs[i] = np.transpose(q.reshape(r, p, k), (2, 0, 1))
+        arrs[i - 1] = np.transpose(np.tensordot(arrs[i - 1], rr, (1, 1)), (0, 2, 1))
+    arrs[0] = arrs[0][0]
+    arrs[-1] = arrs[-1][:, 0, :]
+    return qtn.MatrixProductState(arrs)
 
 
 _CONS = []
 for L_ in (3, 4):
     for c_ in range(L_):
-        for op_ in [("expec", (0,)), ("expec", (L_ - 1,)), ("expec", (1,)), ("expec", (0, 1)), ("expec", (1, 2)),
+        for op_ in [("expec", (1, 0)), ("expec", (2, 0)), ("rdm", (1, 0)), ("rdm", (2, 0)), ("rdm", (0, 2)),
+                    ("gate1", 0), ("gate1", 1), ("gate1", L_ - 1),
+                    ("compress_site", 1), ("compress_site", 1, {"canonize": False}), ("compress_site", 0, {"canonize": False}),
+                    ("compress_site", L_ - 1, {"canonize": False}),
+                    ("expec", (0,)), ("expec", (L_ - 1,)), ("expec", (1,)), ("expec", (0, 1)), ("expec", (1, 2)),
                     ("rdm", (1,)), ("rdm", (0, 1)), ("mag", 0), ("mag", L_ - 1), ("svals", 1), ("svals", L_ - 1),
                     ("schmidt", 1), ("measure", 0, 1, False), ("measure", L_ - 1, 0, False), ("measure", 1, 1, False),
                     ("measure", 1, 0, True), ("measure", L_ - 1, 0, True)]:
-            quick = L_ == 3 and (op_[0] in ("expec", "mag", "svals", "schmidt", "measure") and (op_[1] == (1,) or op_[1] in (0, 1, 2) or op_[1] == (0, 1)))
+            quick = L_ == 3 and (op_[0] in ("expec", "mag", "svals", "schmidt", "measure") and (op_[1] == (1,) or op_[1] in (0, 1, 2) or op_[1] == (0, 1))
+                                or op_ in (("expec", (2, 0)), ("rdm", (1, 0)), ("rdm", (2, 0)), ("gate1", 0), ("gate1", 2))
+                                or (op_[0] == "compress_site" and len(op_) > 2))
             _CONS.append({"L": L_, "c": c_, "op": op_, "_tiers": _Q if quick else _T})
+# genuine range records (lo < hi): what a swap with absorb='both', a multi-site query or 'calc' leave behind
+for L_, recs in ((3, ((0, 1), (1, 2), (0, 2))), (4, ((1, 2), (0, 2), (1, 3), (2, 3)))):
+    for rec_ in recs:
+        for op_ in [("expec", (1,)), ("expec", (1, 2)), ("expec", (2, 1)), ("expec", (0, L_ - 1)), ("rdm", (1, 2)), ("rdm", (0, 1)),
+                    ("mag", 1), ("mag", L_ - 1), ("svals", 1), ("svals", 2), ("measure", 1, 1, False), ("gate1", 1), ("gate1", 0)]:
+            quick = (L_ == 3 and op_ in (("expec", (1, 2)), ("rdm", (1, 2)), ("mag", 1), ("svals", 2), ("svals", 1))) or \
+                    (L_ == 4 and rec_ == (1, 2) and op_ in (("rdm", (1, 2)), ("expec", (1, 2)), ("mag", 1)))
+            _CONS.append({"L": L_, "c": rec_, "op": op_, "_tiers": _Q if quick else _T})
 
 
 @obligation(PROP, params=_CONS, rounds=2, timeout_s=300, max_rows=60000, wall_s=250, solver_timeout_ms=60000)
@@ -336,15 +343,49 @@ def consumer(mk, L, c, op):
     """a consumer of the canonical form, called with a true record (c, c) on an arbitrary state
     in that form: value == dense definition, outgoing record sound"""
     psi = canonical_mps(mk, L, c)
-    info = {"cur_orthog": (c, c)}
+    info = {"cur_orthog": (c, c) if isinstance(c, int) else tuple(c)}
     check_record(mk, psi, info, "premise")   # the premise itself (trivially certified from the hypotheses)
     psi2, want = apply_op(mk, psi, info, op, 0)
     if want is not None:
         mk.eq(f"after {op}: state as expected", dense(psi2), want)
-    check_record(mk, psi2, info, f"after {op}")
+    _check_after(mk, psi2, info, f"after {op}")
+
+
+_WIN = []
+for L_ in (3, 4):
+    recs = [(a, b) for a in range(L_) for b in range(a, L_)]
+    wheres = [a for a in range(L_)] + [(a, b) for a in range(L_) for b in range(L_) if a != b]
+    for rec_ in recs:
+        for w_ in wheres:
+            rev = isinstance(w_, tuple) and w_[0] > w_[1]
+            quick = (L_ == 3 and not rev) or (L_ == 4 and rec_ in ((1, 2), (0, 3), (2, 2)) and w_ in ((1, 2), 0, 3, (0, 1), (2, 3), (2, 1)))
+            _WIN.append({"L": L_, "rec": rec_, "where": w_, "_tiers": _Q if quick else _T})
+
+
+@obligation(PROP, params=_WIN, rounds=2, timeout_s=300, max_rows=60000, wall_s=250, solver_timeout_ms=60000)
+def canonicalize_window(mk, L, rec, where):
+    """one step from an ARBITRARY state satisfying an ARBITRARY true record (lo, hi), lo <= hi:
+    canonicalize(where, info) preserves the state and leaves a true record inside the window `where`"""
+    mk.encodes(c1.TensorNetwork1DFlat.canonicalize, c1.TensorNetwork1DFlat.shift_orthogonality_center,
+               c1.TensorNetwork1DFlat.left_canonize_site, c1.TensorNetwork1DFlat.right_canonize_site, tc.tensor_canonize_bond)
+    psi = canonical_mps(mk, L, rec)
+    info = {"cur_orthog": tuple(rec)}
+    before = dense(psi)
+    psi.canonicalize_(where, info=info)
+    mk.eq("state preserved", dense(psi), before)
+    check_record(mk, psi, info, f"after canonicalize({where}) from record {rec}")
+    w = (where, where) if isinstance(where, int) else (min(where), max(where))
+    co = info["cur_orthog"]
+    mk.same("new record lies within the requested window", w[0] <= min(co) <= max(co) <= w[1], True)
 
 
 HISTORIES = [
+    _h(("canon", 0), ("gate1", 2), ("expec", (2,)), L=3),
+    _h(("canon", 2), ("gate1", 0), ("canon", 1), ("expec", (1, 0)), L=3),
+    _h(("canon", 1), ("swap", 1, 2, "both"), ("rdm", (1, 2)), ("rdm", (1, 2)), L=3),
+    _h(("canon", 1), ("swap", 1, 2, "both"), ("expec", (1, 2)), ("mag", 2), tiers=_T),
+    _h(("canon", 0), ("compress_site", 2, {"canonize": False}), ("expec", (1,)), L=3),
+
     _h(("canon", 1), L=3),
     _h(("canon", 0), ("canon", 2), L=3),
     _h(("canon", (1, 2)), ("canon", 3)),
